@@ -148,7 +148,19 @@ func waitFor(cond func() bool) bool {
 	return false
 }
 
-func scenario(c *core.Ctx, r *core.Rand, i int, withGrace bool) {
+// shutdown modes
+const (
+	shutOnce           = iota
+	shutTwiceTogether  // two callers (a signal handler and a deferred call) at the same time
+	shutTwiceInARow    // the second call arrives while the first is still waiting
+	shutListenerClosed // the owner closes the listener itself, then calls Shutdown to drain
+)
+
+var shutNames = []string{"once", "twice-together", "twice-in-a-row", "listener-closed-first"}
+
+func scenario(c *core.Ctx, r *core.Rand, i int, withGrace bool) { scenarioMode(c, r, i, withGrace, shutOnce) }
+
+func scenarioMode(c *core.Ctx, r *core.Rand, i int, withGrace bool, mode int) {
 	base := len(census.Goroutines())
 	w := newWorld()
 	tag := fmt.Sprintf("s%d", i)
@@ -262,21 +274,40 @@ func scenario(c *core.Ctx, r *core.Rand, i int, withGrace bool) {
 			go cs.conn.Write(request(cs.id))
 		}
 	}
+	if mode == shutListenerClosed {
+		w.l.Close()
+	}
 	w.log("shutdownCalled", "", "")
-	shut := make(chan error, 1)
-	go func() { err := w.srv.Shutdown(); w.log("shutdownReturned", "", ""); shut <- err }()
-	// release the gated handlers once Shutdown is under way
-	time.Sleep(time.Duration(r.Intn(3)) * time.Millisecond)
+	nShut := 1
+	if mode == shutTwiceTogether || mode == shutTwiceInARow {
+		nShut = 2
+	}
+	shut := make(chan error, nShut)
+	for k := 0; k < nShut; k++ {
+		go func() { err := w.srv.Shutdown(); w.log("shutdownReturned", "", ""); shut <- err }()
+		if mode == shutTwiceInARow {
+			time.Sleep(time.Duration(1+r.Intn(3)) * time.Millisecond)
+		}
+	}
+	c.Count("shutdown_mode."+shutNames[mode], 1)
+	// release the gated handlers once Shutdown is under way (every call must still be waiting for them then)
+	if mode == shutOnce {
+		time.Sleep(time.Duration(r.Intn(3)) * time.Millisecond)
+	} else {
+		time.Sleep(time.Duration(20+r.Intn(30)) * time.Millisecond)
+	}
 	for _, cs := range conns {
 		if cs.state == "handler-gated-released-after-shutdown" {
 			w.open(cs.id)
 		}
 	}
-	select {
-	case <-shut:
-	case <-time.After(30 * time.Second):
-		c.Violation("C16:shutdown-does-not-return", fmt.Sprintf("Shutdown has not returned after 30 s (%d connections: %v)", n, sig), nil)
-		return
+	for k := 0; k < nShut; k++ {
+		select {
+		case <-shut:
+		case <-time.After(30 * time.Second):
+			c.Violation("C16:shutdown-does-not-return", fmt.Sprintf("Shutdown (%s) has not returned after 30 s (%d connections: %v)", shutNames[mode], n, sig), nil)
+			return
+		}
 	}
 	var serveErr error
 	select {
@@ -294,7 +325,10 @@ func scenario(c *core.Ctx, r *core.Rand, i int, withGrace bool) {
 	c.Count("scenarios", 1)
 	c.Count("connections", int64(len(conns)))
 	c.Distinct(core.Hash64(strings.Join(sig, ","), fmt.Sprint(nRace, withGrace)))
-	check(c, w, conns, serveErr, left, fmt.Sprintf("scenario %d: %v +%d racing", i, sig, nRace))
+	if mode == shutListenerClosed {
+		serveErr = kmipserver.ErrShutdown // the accept loop ended when the owner closed the listener: its error is the owner's business
+	}
+	check(c, w, conns, serveErr, left, fmt.Sprintf("scenario %d, Shutdown %s: %v +%d racing", i, shutNames[mode], sig, nRace))
 	for _, cs := range conns {
 		cs.conn.Close()
 	}
@@ -348,8 +382,8 @@ func check(c *core.Ctx, w *world, conns []*cstate, serveErr error, left []string
 		if e.kind == "shutdownCalled" {
 			called = e
 		}
-		if e.kind == "shutdownReturned" {
-			returned = e
+		if e.kind == "shutdownReturned" && returned.kind == "" {
+			returned = e // the FIRST return: every call that returns promises the same
 		}
 	}
 	started := map[string]event{}
@@ -588,7 +622,7 @@ func Spec() *core.Spec {
 			"an event log with a global logical clock (connect/terminate hooks with a connection id installed in the context, handler start/end/cancel, shutdown called/returned, Serve returned) is checked offline; " +
 			"grace-period scenarios take 3 s and are judged with a one-sided comparison (a cancellation must not come EARLIER than 2.9 s after Shutdown was called); directed schedule through the verif hook between Accept and wg.Add; connect storms (16 clients connecting in a loop on 2 processors while Shutdown is called). distinct = distinct state combinations",
 		Assumptions: []string{"the documented grace period is 3 s; load can only make a cancellation later, so the one-sided comparison cannot be falsified by a slow machine", "goroutines gone = none with a library frame within 10 s after Shutdown returned"},
-		Required:    []string{"scenarios", "events", "paired_hooks", "failed_connect_hooks", "in_flight_answered", "in_flight_cancelled", "census_checks", "directed.accepted-not-yet-counted", "connect_storms"},
+		Required:    []string{"scenarios", "events", "paired_hooks", "failed_connect_hooks", "in_flight_answered", "in_flight_cancelled", "census_checks", "directed.accepted-not-yet-counted", "connect_storms", "shutdown_mode.twice-together", "shutdown_mode.twice-in-a-row", "shutdown_mode.listener-closed-first"},
 		Shards:      func(string) int { return 8 },
 		Families: []core.Family{
 			{Name: "scenarios", N: func(tier string) int {
@@ -603,6 +637,12 @@ func Spec() *core.Spec {
 				}
 				return 16
 			}, Run: func(c *core.Ctx, r *core.Rand, i int) { scenario(c, r, i, true) }, Timeout: 90 * time.Second},
+			{Name: "repeated-shutdown", N: func(tier string) int {
+				if tier == core.Thorough {
+					return 1500
+				}
+				return 45
+			}, Run: func(c *core.Ctx, r *core.Rand, i int) { scenarioMode(c, r, i, false, 1+i%3) }, Timeout: 90 * time.Second},
 			{Name: "directed", N: func(tier string) int {
 				if tier == core.Thorough {
 					return 300
